@@ -12,13 +12,13 @@ use std::sync::atomic::{AtomicU64, Ordering::Relaxed};
 use yash_fnmatch::{Config, Pattern, PatternChar};
 
 #[derive(Debug, Clone)]
-enum Item {
+pub enum Item {
     Ch(char),
     Range(char, char),
     Class(String),
 }
 #[derive(Debug, Clone)]
-enum At {
+pub enum At {
     Lit(char),
     Any,
     Star,
@@ -26,7 +26,7 @@ enum At {
 }
 
 /// (char, literal?)
-type PC = (char, bool);
+pub type PC = (char, bool);
 
 fn to_pattern_chars(pc: &[PC]) -> Vec<PatternChar> {
     pc.iter()
@@ -35,7 +35,7 @@ fn to_pattern_chars(pc: &[PC]) -> Vec<PatternChar> {
 }
 
 /// Splits a pattern text with backslash escapes; None = trailing lone backslash (unspecified).
-fn pchars(p: &str) -> Option<Vec<PC>> {
+pub fn pchars(p: &str) -> Option<Vec<PC>> {
     let mut v = vec![];
     let mut it = p.chars();
     while let Some(c) = it.next() {
@@ -51,12 +51,12 @@ fn pchars(p: &str) -> Option<Vec<PC>> {
     Some(v)
 }
 
-enum Parsed {
+pub enum Parsed {
     Ok(Vec<At>),
     Unspecified,
 }
 
-fn parse(pc: &[PC]) -> Parsed {
+pub fn parse(pc: &[PC]) -> Parsed {
     let mut out = vec![];
     let mut i = 0;
     while i < pc.len() {
@@ -230,7 +230,7 @@ fn m(p: &[At], s: &[char]) -> bool {
 }
 
 /// Reference `find`/`rfind`: byte range of the chosen matching substring.
-fn ref_find(ast: &[At], s: &[char], ab: bool, ae: bool, shortest: bool, rightmost: bool) -> Option<(usize, usize)> {
+pub fn ref_find(ast: &[At], s: &[char], ab: bool, ae: bool, shortest: bool, rightmost: bool) -> Option<(usize, usize)> {
     let n = s.len();
     let starts: Vec<usize> = if ab { vec![0] } else if rightmost { (0..=n).rev().collect() } else { (0..=n).collect() };
     for st in starts {
